@@ -657,7 +657,19 @@ SPECS["C12"].universe = dict(U(leaves=[["Var", 0]], unary=[lambda x: ["Delimited
                              post=lambda g: ["Rec" if sx(g).count("(") % 2 == 0 else "RecDecl", ["Or", ["IgnoreThen", ["Just", [A]], g], ["Just", [B]]]])
 SPECS["C04"].kind_cases = c04_trees
 SPECS["C10"].kind_cases = c10_graphemes
-SPECS["C01"].kind_cases = c01_graphemes
+def c01_forward(rng, tier):
+    """a lookahead that consumes less than the parser it guards, followed by something that reads on: the input must deliver the
+    token at the cursor after the cursor was moved FORWARD (IoInput's reader, a Stream's cache), and the verdict depends on it"""
+    out = []
+    for _ in range(40 if tier == "quick" else 400):
+        x, y, z = (rng.choice([A, B, C]) for _ in range(3))
+        la = rng.choice([["Just", [x]], ["OneOf", [x, y]], "Any", ["Then", ["Just", [x]], ["Rewind", "Any"]]])
+        rest = rng.choice([["Just", [z]], ["Collect", "CVec", ["IRep", "Any", 0, "inf"]], ["Then", "Any", "End"], ["Or", ["Just", [z]], ["Just", [y]]]])
+        g = ["Then", ["AndIs", ["Then", ["Just", [x]], ["Just", [y]]], la], rest]
+        for inp in ([x, y, z], [x, y, z, z], [x, y], [x, y, y], [x, y, rng.choice([A, B, C])]):
+            out.append((g, inp, ["io", "stream", "str"]))
+    return out
+SPECS["C01"].kind_cases = lambda rng, tier: c01_graphemes(rng, tier) + c01_forward(rng, tier)
 SPECS["C06"].kind_cases = c06_trees
 SPECS["C10"].all_kinds = True
 SPECS["C10"].extra_cases = c10_long
